@@ -377,7 +377,12 @@ def slot_desc(name, prop):
     if isinstance(prop, P.ListProperty):
         c = prop.contained
         contained = type(c).__name__ if isinstance(c, P.Property) else "class:" + c.__name__
-    return {"name": name, "ptype": type(prop).__name__, "required": bool(prop.required),
+    embedded = None
+    if isinstance(prop, P.EmbeddedObjectProperty) and inspect.isclass(prop.type):
+        embedded = ["one", class_key(prop.type)]
+    elif isinstance(prop, P.ListProperty) and inspect.isclass(prop.contained) and type(prop) is P.ListProperty:
+        embedded = ["many", class_key(prop.contained)]
+    return {"name": name, "ptype": type(prop).__name__, "required": bool(prop.required), "embedded": embedded,
             "default": hasattr(prop, "default"), "fixed": hasattr(prop, "_fixed_value"),
             "objref": ref, "contained": contained,
             "has_contained": hasattr(prop, "contained")}
